@@ -215,6 +215,25 @@ def ramalhete(ctx):
             if _from_new(fn, fn.kids(t)[2]):
                 ok, path, n = flow.only_via(fn, t, lambda f_, nid: flow.node_matches(f_, nid, LINK), True)
                 ctx.check(ok and n > 0, rid, Q + "push#swing|linked", "_tail swung to the new node only after it was linked", "_tail swung to an unlinked node", fn.where(t), fn=fn)
+    # ticket -> slot mapping is a bijection on [0, max_idx)
+    import math
+    rid_b = "RQ.ticket-bijection"
+    ctx.rule(rid_b, "Ramalhete queue: tickets advance by step_size and are mapped to slots modulo entries_per_node; for every instantiated configuration "
+                    "gcd(step_size, entries_per_node) == 1 (otherwise several tickets of one node map to the same entry) and max_idx == step_size * entries_per_node")
+    recs = [r for r in ctx.facts.records if r["pat"] == X + "ramalhete_queue" and "step_size" in r.get("consts", {})]
+    if not recs:
+        ctx.broken.append("ramalhete_queue: class constants step_size / entries_per_node not found")
+    seen_cfg = set()
+    for r in recs:
+        c_ = r["consts"]
+        n_, st_, mx_ = c_.get("entries_per_node"), c_.get("step_size"), c_.get("max_idx")
+        if n_ is None or st_ is None or (n_, st_) in seen_cfg:
+            continue
+        seen_cfg.add((n_, st_))
+        ok = math.gcd(st_, n_) == 1 and (mx_ is None or mx_ == st_ * n_)
+        ctx.check(ok, rid_b, Q[:-2] + "#entries_per_node=%d" % n_, "step %d and %d entries are coprime, max_idx = %s" % (st_, n_, mx_),
+                  "ramalhete_queue with entries_per_node=%d uses step_size=%d (gcd %d): the %d tickets of a node map to only %d distinct entries - pushes overwrite "
+                  "each other's slots / pops return the same element repeatedly" % (n_, st_, math.gcd(st_, n_), n_, n_ // math.gcd(st_, n_)), "xenium/ramalhete_queue.hpp")
     # C07.a destructor range
     for fn in flow._shapes(ctx, Q + "node::~node"):
         inst = Q + "node::~node#range<=max_idx"
@@ -272,7 +291,17 @@ def nikolaev(ctx):
                     for tail in (5, 7, 13):
                         for head in (4, 8, 20):
                             env_ = {expv: tail}
-                            env_.update({o: head for o in others})
+                            for o in others:
+                                d_ = flow.unique_def(fn, o)
+                                if d_ is not None and fn.nodes[[x for x in range(len(fn.nodes)) if fn.nodes[x]["k"] == "ref" and fn.nodes[x].get("name") == o][0]].get("dk") == "local":
+                                    # a local computed before the retry loop is a STALE snapshot: the expected value may have been refreshed by a failed
+                                    # CAS since (e.g. finalize() set the flag in between), so it is evaluated with the previous, unfinalized tail
+                                    try:
+                                        env_[o] = evalx(fn, d_, {expv: tail - 1, **{p_["name"]: head for p_ in fn.params if p_["name"] != expv}})
+                                    except Unknown:
+                                        env_[o] = head
+                                else:
+                                    env_[o] = head
                             got = evalx(fn, kids[2], env_)
                             if got & 1 != 1:
                                 bad = (tail, head, got)
